@@ -117,11 +117,23 @@ func hostileInputs(env run.Env, phase, idx int, emit0 func(kind string, in []byt
 	// the "declared-huge" family only, a handful per run, and the checks
 	// pass them through Ctx.HugeGate one at a time; elsewhere they are
 	// dropped, or sixteen workers would thrash memory.
+	// bytes one case may hand to the decoder: mutation families multiply
+	// (fields x variants) frames that can themselves be megabytes long; a
+	// case that has had its share stops (the same families are exercised on
+	// the thousands of smaller frames)
+	budget := int64(24 << 20)
+	if env.Thorough {
+		budget = 96 << 20
+	}
 	emit := func(kind string, in []byte) {
 		if kind != "declared-huge" {
 			if h, err := ref.ParseHeader(in); err == nil && h.RemLen > 1<<22 && len(in) < h.Total() {
 				return
 			}
+			if budget < 0 && kind != "large-malformed" {
+				return
+			}
+			budget -= int64(len(in))
 		}
 		emit0(kind, in)
 	}
